@@ -27,7 +27,7 @@ from ..world import World, run_world
 ID = 'C16'
 LEVEL = 'fault_enumeration'
 QUICK_SCALE = 4      # the quick tier was enlarged by this factor after MIN_OBS['quick'] was measured
-QUICK_FIXED = ('pending_work_kinds', 'burst_cut_points', 'burst_stop_points', 'port_cfgs')      # counters of fixed-size parts (coverage, enumerations): not scaled
+QUICK_FIXED = ('pending_work_kinds', 'burst_cut_points', 'burst_stop_points', 'port_cfgs', 'client_burst_cut_points')      # counters of fixed-size parts (coverage, enumerations): not scaled
 ME = 'me'
 RECONNECT_TIMEOUT = 5            # settings.network.server.reconnect.timeout in every case
 RECONNECT_BOUND = RECONNECT_TIMEOUT + 1.0 + 0.5 + 1.0      # timeout + 1 s + watchdog period + slack
@@ -40,6 +40,7 @@ LIKED = ('jazz', 'rock')
 HATED = ('polka', 'noise')
 FAVS = ('lobby', 'den')
 BURST_LEN = 9
+CLIENT_BURST_MAX = 18            # the reset strikes at the k-th frame the client writes after its Login frame, k = 1..18
 PENDING_KINDS = ('download-hang', 'download-slow', 'search', 'parent-hang', 'parent-slow', 'connect-back-hang',
                  'tracking-retry')
 # name -> (clear port configured, obfuscated port configured, ports whose bind fails, error mode)
@@ -66,7 +67,9 @@ RULE = (
     "speed values, the deprecated distributed parameters, wishlist interval, privileged users, excluded phrases). Point: "
     "loss (server FIN, RST, silent loss ending in ETIMEDOUT after 900 s, an unanswered login, requested "
     "disconnect_server()) before login, at login, right after frame k of the burst in the same instant (k = 0..9 "
-    "exhaustive), idle, idle with the server unreachable for the next 12 s (reconnect attempts fail), or with pending work (download whose peer connect hangs / is slow, search with timeout, "
+    "exhaustive), a reset that strikes at the k-th frame the client itself writes after its Login frame, i.e. inside the "
+    "dispatch of SessionInitializedEvent (k = 1..18 exhaustive; the following write fails with a write error), idle, idle "
+    "with the server unreachable for the next 12 s (reconnect attempts fail), or with pending work (download whose peer connect hangs / is slow, search with timeout, "
     "potential-parent connect hanging / slow, connect-back hanging, tracking retry scheduled); or stop() before login, "
     "while login() blocks, after a failed login, after frame k of a burst sent at 50 ms spacing (k = 0..9 exhaustive), "
     "right after login() returned, idle, with each kind of pending work, while the reconnect wait runs, after a requested "
@@ -119,10 +122,12 @@ ASSUMPTIONS = [
 MIN_OBS = {
     'quick': {'logins_judged': 150, 'required_frames_checked': 1800, 'losses_judged': 90, 'stops_judged': 250,
               'reconnects_judged': 90, 'execute_checks': 250, 'pending_work_kinds': len(PENDING_KINDS),
-              'burst_cut_points': BURST_LEN + 1, 'burst_stop_points': BURST_LEN + 1, 'port_cfgs': len(PORT_CFGS)},
+              'burst_cut_points': BURST_LEN + 1, 'burst_stop_points': BURST_LEN + 1, 'port_cfgs': len(PORT_CFGS),
+              'client_burst_cut_points': 10},
     'thorough': {'logins_judged': 6000, 'required_frames_checked': 60000, 'losses_judged': 3500, 'stops_judged': 9000,
                  'reconnects_judged': 3500, 'execute_checks': 9000, 'pending_work_kinds': len(PENDING_KINDS),
-                 'burst_cut_points': BURST_LEN + 1, 'burst_stop_points': BURST_LEN + 1, 'port_cfgs': len(PORT_CFGS)},
+                 'burst_cut_points': BURST_LEN + 1, 'burst_stop_points': BURST_LEN + 1, 'port_cfgs': len(PORT_CFGS),
+                 'client_burst_cut_points': 10},
 }
 SHARD_TIMEOUT = {'quick': 600, 'thorough': 5400}
 N_TOTAL = {'quick': 1200, 'thorough': 60000}
@@ -136,6 +141,11 @@ WHAT_FAILS = {
     'loss:session-destroyed-count:': 'number of SessionDestroyedEvents for a lost session is not exactly one',
     'loss:destroyed-before-closed': 'SessionDestroyedEvent emitted before the CLOSED notification of the server connection',
     'loss:residue:': 'server-derived state left after the server connection closed',
+    'loss:residue:tracking:reset-while-sending': 'the connection is lost inside the dispatch of SessionInitializedEvent (a '
+        'write of an earlier handler fails): the CLOSED notification clears tracking, then the remaining handlers run for the '
+        'already destroyed session and UserManager tracks the own name and the friends again',
+    'loss:session-destroyed-count:0:reset-while-sending': 'the connection is lost inside the dispatch of '
+        'SessionInitializedEvent but no SessionDestroyedEvent follows',
     'loss:no-reconnect:': 'auto-reconnect on, unrequested loss, but no new connection / login within the bound',
     'loss:reconnect-although:': 'a new connection to the server although the loss was requested / a server EOF / auto-reconnect is off',
     'stop:open-endpoint': 'a connection of the client is open after stop() returned',
@@ -186,6 +196,7 @@ LOSS_REASONS = {
     'pre-login': ('eof', 'rst', 'requested'),
     'at-login': ('eof', 'rst', 'silent'),
     'burst': ('eof', 'rst'),
+    'client-burst': ('reset-while-sending',),
     'idle': ('eof', 'rst', 'etimedout', 'requested'),
     'idle-down': ('rst', 'etimedout'),
     'pending': ('eof', 'rst', 'etimedout', 'requested'),
@@ -239,6 +250,8 @@ def cases(tier: str, seed: int) -> list[dict]:
         for k in range(BURST_LEN + 1):
             for reason in LOSS_REASONS['burst']:
                 add('loss', 'burst', reason, k=k, auto=auto)
+        for k in range(1, CLIENT_BURST_MAX + 1):
+            add('loss', 'client-burst', 'reset-while-sending', k=k, auto=auto)
     for reason in LOSS_REASONS['idle-down']:
         add('loss', 'idle-down', reason, auto=True)
     n = 0
@@ -262,9 +275,11 @@ def cases(tier: str, seed: int) -> list[dict]:
                 work=rng.choice(PENDING_KINDS) if point == 'pending' else None,
                 **({'auto': True} if point in ('reconnect-wait', 'relogged') else {}))
         else:
-            point = rng.choice(('pre-login', 'at-login', 'burst', 'burst', 'idle', 'idle-down', 'pending', 'pending'))
+            point = rng.choice(('pre-login', 'at-login', 'burst', 'burst', 'client-burst', 'client-burst', 'idle',
+                                'idle-down', 'pending', 'pending'))
             add('loss', point, rng.choice(LOSS_REASONS[point]),
-                k=rng.randint(0, BURST_LEN) if point == 'burst' else None,
+                k=(rng.randint(0, BURST_LEN) if point == 'burst' else
+                   rng.randint(1, CLIENT_BURST_MAX) if point == 'client-burst' else None),
                 work=rng.choice(PENDING_KINDS) if point == 'pending' else None,
                 **({'auto': True} if point == 'idle-down' else {}))
     return out
@@ -586,6 +601,22 @@ def run_case(params: dict) -> dict:
             return list(burst)
         server.post_login = post_login
 
+        # -- the reset that strikes while the client is sending its own post-login frames -------------------------
+        # (the server resets right after its login reply: the client learns it at its k-th write after the Login frame.
+        # That write is still accepted, the connection is dead from the next loop step on: the following write of
+        # the SessionInitialized handlers fails with a write error INSIDE the dispatch of that event.)
+        if kind == 'loss' and point == 'client-burst':
+            def on_write(tr, data):
+                if not st.get('arm') or tr.owner != ME or tr.conn.src != ME or tr.conn.port != server.port:
+                    return
+                st['writes'] = st.get('writes', 0) + 1
+                if st['writes'] == k + 1:                   # write #1 is the Login frame
+                    st['arm'] = False
+                    st['t_cut'] = now()
+                    st['session_at_cut'] = client.session is not None
+                    w.net.cut_now(tr.conn, 'rst')
+            w.net.on_write = on_write
+
         # -- helpers ----------------------------------------------------------------------------------------
         def server_conns():
             return [c for c in w.net.conns if c.src == ME and c.port == server.port]
@@ -666,6 +697,13 @@ def run_case(params: dict) -> dict:
             cover.append(('logins', label))
             note('login-judged', label=label, t=now(), frames=[type(m).__qualname__.split('.')[0] for m in frames][:30])
             for sig, detail in v:
+                if sig == 'login:missing:AddUser' and detail.get('missing') in st.get('residue_tracked', ()):
+                    # consequence of the tracking entry that was left over from the lost session (reported there): the
+                    # entry already carries the FRIEND reason, so the new login does not send AddUser; the entry's own
+                    # retry does, 10 s + 10 s after its last attempt
+                    st['residue_detail'].setdefault('consequence_after_the_next_login', []).append(
+                        f"AddUser({detail['missing']}) not sent within 2 s after the new login")
+                    continue
                 violation(sig, at=label, settings=exp, frames=[repr(m)[:90] for m in frames][:30], **detail)
 
         async def wait_closed(t_from: float, bound: float) -> Optional[tuple]:
@@ -752,15 +790,21 @@ def run_case(params: dict) -> dict:
             if client.session is not None:
                 violation(f'loss:residue:session:{why}', **wit)
             users = sorted(n for n in client.users.users if n not in st['exclude_users'])
+            tracked = sorted(n for n in tm._tracked_users if n not in st['exclude_users'])
+            if tracked:
+                # (the tracking entries hold the User objects: users that are only there because they are still
+                # tracked belong to this finding)
+                violation(f'loss:residue:tracking:{why}', **wit, tracked_users={
+                    n: {'flags': str(tm._tracked_users[n].flags), 'state': tm._tracked_users[n].state.name}
+                    for n in tracked}, users_left=users,
+                    session_of_the_user_manager_still_set=client.users._session is not None)
+                st['residue_tracked'] = set(tracked)
+                st['residue_detail'] = viol[-1][1]
+            users = [n for n in users if n not in tracked]
             if users:
                 violation(f'loss:residue:users:{why}', **wit, users=users)
             if client.rooms.rooms:
                 violation(f'loss:residue:rooms:{why}', **wit, rooms=sorted(client.rooms.rooms))
-            tracked = sorted(n for n in tm._tracked_users if n not in st['exclude_users'])
-            if tracked:
-                violation(f'loss:residue:tracking:{why}', **wit, tracked_users={
-                    n: {'flags': str(tm._tracked_users[n].flags), 'state': tm._tracked_users[n].state.name}
-                    for n in tracked})
             params_left = {a: getattr(dn, a) for a in ('parent_min_speed', 'parent_speed_ratio', 'min_parents_in_cache',
                                                        'parent_inactivity_timeout', 'distributed_alive_interval')
                            if getattr(dn, a) is not None}
@@ -775,7 +819,7 @@ def run_case(params: dict) -> dict:
             def logins_after():
                 return [(round(t, 4), s.no) for s in server.sessions for t, m in s.frames
                         if isinstance(m, M.Login.Request) and t >= t_closed]
-            expect = bool(cfg['auto']) and why in ('rst', 'etimedout', 'silent')
+            expect = bool(cfg['auto']) and why in ('rst', 'etimedout', 'silent', 'reset-while-sending')
             add('reconnects_judged')
             cover.append(('reconnect_cells', f"{why}:auto-{'on' if cfg['auto'] else 'off'}"))
             if expect:
@@ -1051,6 +1095,23 @@ def run_case(params: dict) -> dict:
             cover.append(('login_outcomes', f'cut-after-{k}->{out_}'))
             cover.append(('burst_cut_points', k))
             await judge_loss(t_inj, reason, 0, 0, label)
+        elif point == 'client-burst':
+            st['arm'] = True
+            out_ = await do_login()
+            st['arm'] = False
+            info['login_outcome'] = out_
+            if st.get('t_cut') is None:
+                # fewer than k frames are written with these settings: no loss happened
+                cover.append(('client_burst_beyond_the_last_frame', k))
+                cover.append(('login_outcomes', f'no-cut->{out_}'))
+                await settle(2.0)
+            else:
+                cover.append(('login_outcomes', f'reset-at-own-frame->{out_}'))
+                cover.append(('client_burst_cut_points', k))
+                add('client_burst_cuts_inside_login' if not st['closed'] or st['closed'][0][0] <= st['t_cut'] + 1e-9
+                    else 'client_burst_cuts_noticed_later')
+                note('reset-while-sending', k=k, t=st['t_cut'], session_object_set_at_that_write=st['session_at_cut'])
+                await judge_loss(st['t_cut'], reason, 0, 0, label)
         else:
             got = await login_expect_ok()
             if got is None:
@@ -1124,4 +1185,5 @@ def finish(total: dict, tier: str, seed: int) -> None:
     total['obs']['pending_work_kinds'] = len(cov.get('pending_work_kinds', []))
     total['obs']['burst_cut_points'] = len(cov.get('burst_cut_points', []))
     total['obs']['burst_stop_points'] = len(cov.get('burst_stop_points', []))
+    total['obs']['client_burst_cut_points'] = len(cov.get('client_burst_cut_points', []))
     total['obs']['port_cfgs'] = len({str(v).split('->')[0] for v in cov.get('port_cfgs', [])})
